@@ -1927,6 +1927,20 @@ class JoinUsing(Join):
         self.fields = [field.replace_table(current_table, new_table) for field in self.fields]
 
 
+def _ddl_target(table: Table) -> Table:
+    """
+    The target of a DDL statement is the table itself: the alias and the FOR clause of a Table object that is shared
+    with a SELECT are not part of its name (no database accepts them in CREATE / DROP / REFERENCES / ON).
+    """
+    if table.alias is None and not table._for and not table._for_portion:
+        return table
+    target = copy(table)
+    target.alias = None
+    target._for = None
+    target._for_portion = None
+    return target
+
+
 class CreateQueryBuilder:
     """
     Query builder used to build CREATE queries.
@@ -1985,7 +1999,7 @@ class CreateQueryBuilder:
         if self._create_table:
             raise AttributeError("'Query' object already has attribute create_table")
 
-        self._create_table = table if isinstance(table, Table) else Table(table)
+        self._create_table = _ddl_target(table) if isinstance(table, Table) else Table(table)
 
     @builder
     def temporary(self) -> "CreateQueryBuilder":
@@ -2146,7 +2160,7 @@ class CreateQueryBuilder:
             raise AttributeError("'Query' object already has attribute foreign_key")
         self._foreign_key = self._prepare_columns_input(columns)
         self._foreign_key_reference_table = (
-            reference_table if isinstance(reference_table, Table) else Table(reference_table)
+            _ddl_target(reference_table) if isinstance(reference_table, Table) else Table(reference_table)
         )
         self._foreign_key_reference = self._prepare_columns_input(reference_columns)
         self._foreign_key_on_delete = on_delete
@@ -2317,7 +2331,7 @@ class CreateIndexBuilder:
 
     @builder
     def on(self, table: Union[Table, str]) -> "CreateIndexBuilder":
-        self._table = table
+        self._table = _ddl_target(table) if isinstance(table, Table) else table
 
     @builder
     def where(self, criterion: Union[Term, EmptyCriterion]) -> "CreateIndexBuilder":
@@ -2389,7 +2403,7 @@ class DropQueryBuilder:
 
     @builder
     def drop_table(self, table: Union[Table, str]) -> "DropQueryBuilder":
-        target = table if isinstance(table, Table) else Table(table)
+        target = _ddl_target(table) if isinstance(table, Table) else Table(table)
         self._set_target('TABLE', target)
 
     @builder
